@@ -141,7 +141,7 @@ def _subs(tier, prop):
         two_waiters = {'pools': {}, 'devices': [
             {'k': 'source', 'name': 's1', 'cycle': 0, 'parts': 1}, {'k': 'source', 'name': 's2', 'cycle': 0, 'parts': 1},
             {'k': 'proc', 'name': 'p1', 'up': ['s1'], 'cycle': 'c1', 'res': {'r': 1}},
-            {'k': 'proc', 'name': 'p2', 'up': ['s2'], 'cycle': 'c2', 'res': {'r': 1}},
+            {'k': 'proc', 'name': 'p2', 'up': ['s2'], 'cycle': 'c1', 'res': {'r': 1}},
             {'k': 'sink', 'name': 'k1', 'up': ['p1'], 'cycle': 0}, {'k': 'sink', 'name': 'k2', 'up': ['p2'], 'cycle': 0}]}
         S.append(mk_sub('F5-two-waiters-pool-raised-by-two', with_ops(two_waiters, [
             {'k': 'addres', 'res': 'r', 'amount': 2, 't': 't0'}]), mons))
@@ -278,7 +278,7 @@ def _subs(tier, prop):
             {'k': 'shutdown', 'dev': 'p1', 't': 't0'}, {'k': 'restore', 'dev': 'p1', 't': 't1'}]), mons, zero=['cs'], pre=['t0 <= t1']))
         S.append(mk_sub('F5-fail-while-down-holding', with_ops(serial('P', 2, res={'r': 1}) | {'pools': {'r': 1}}, [
             {'k': 'shutdown', 'dev': 'p1', 't': 't0'}, {'k': 'armfail', 'dev': 'p1', 't': 't0', 'delay': 'd1'},
-            {'k': 'restore', 'dev': 'p1', 't': 't2'}]), mons, zero=['cs'], pre=['t0 + d1 <= t2']))
+            {'k': 'restore', 'dev': 'p1', 't': 't2'}]), mons, zero=['cs', 'c0'] if q else ['cs'], pre=['t0 + d1 <= t2']))
         S.append(mk_sub('F5-blocked-processor-offered-a-part', with_ops(resources2(2), [
             {'k': 'block', 'dev': 'p1', 't': 0, 'prio': 'high'}, {'k': 'unblock', 'dev': 'p1', 't': 't0'}]), mons, zero=['cs', 'c0']))
         S.append(mk_sub('F5-waiting-processor-blocked-then-pool-freed', with_ops(two_lines_shared_tool(1, 1), [
@@ -495,7 +495,7 @@ def jobs(tier, prop):
             subs += split_by_order(s, list(zip(names, names[1:]))[:3])
         else:
             subs.append(s)
-    return pack(subs, 32 if tier == 'quick' else 64, lambda s: 1.0, f'{prop.lower()}-l', weights='distinct',
+    return pack(subs, (64 if prop == 'C04' else 32) if tier == 'quick' else 64, lambda s: 1.0, f'{prop.lower()}-l', weights='distinct',
                 timeout=170 if tier == 'quick' else 300)
 
 
